@@ -281,7 +281,11 @@ func (md *Model) structToStruct(prefix string, dt types.Type, srcN *node, either
 	}
 	if n == 0 && prefix != "" {
 		// a struct without accessible members is a leaf of its own
-		md.emit(&Expect{Path: prefix, Class: "none", Reason: "no-match", Governed: "default", Type: dt})
+		if eitherWhy != "" {
+			md.emit(&Expect{Path: prefix, Class: "either", Reason: eitherWhy, Governed: "default", Type: dt})
+		} else {
+			md.emit(&Expect{Path: prefix, Class: "none", Reason: "no-match", Governed: "default", Type: dt})
+		}
 	}
 }
 
